@@ -38,6 +38,15 @@ def wait_for_fd(R, prog):
                    require=lambda st, ev: 'S:slept' not in st or 'S:removed' in st,
                    key_fn=lambda ev, short=short: '%s.K7:%s::wait_for_fd:failing-exit-removes-interest' % (P, short),
                    describe=lambda ev: 'after the sleep, -1 is returned only after rm_interest (no stale thread pointer stays armed)', min_sites=2, what='return -1')
+        if short == 'EventEngineEPollNG':
+            # its epoll data pointer is an Event on THIS stack frame, and events are reaped one round before they are delivered:
+            # after deregistering, the already-reaped events are fired before the frame is left
+            drain = lambda ev: ev.kind == 'call' and (ev.callee() or '').endswith('::wait_and_fire_events')
+            res_d = an.run(G, [an.SeenTracker([('slept', sleep), ('removed', rm, ('drained',)), ('drained', drain)])])
+            K.check_at(R, P + '.K7', G, res_d, lambda ev: ev.kind == 'return' and ev.depth == 0 and ev.f.const(ev.e['sub']) == -1,
+                       require=lambda st, ev: 'S:slept' not in st or ('S:removed' in st and 'S:drained' in st),
+                       key_fn=lambda ev, short=short: '%s.K7:%s::wait_for_fd:failing-exit-drains-reaped-events' % (P, short),
+                       describe=lambda ev: 'after rm_interest the events already reaped (which point at the on-stack waiter) are fired before returning', min_sites=2, what='return -1')
         K.check_at(R, P + '.K6', G, res, lambda ev: ev.kind == 'return' and ev.depth == 0 and ev.f.const(ev.e['sub']) == 0 and True,
                    require=lambda st, ev: 'S:slept' not in st or ('G:ret == -1=T' in CN(st) and any(re.match(r'^G:err\.no == \d+=T$', k) or re.match(r'^G:err\.no=F$', k) for k in CN(st))),
                    key_fn=lambda ev, short=short: '%s.K6:%s::wait_for_fd:success-only-for-EOK-wakeup' % (P, short),
@@ -73,12 +82,14 @@ def level_engine(R, prog):
             ent, fld = m.group(1), m.group(2)
             bit = EVBIT[fld]
             reg = any(k == 'G:(%s.interests & %d)=T' % (ent, bit) for k in st)
-            kbit = {'reader_data': 1, 'writer_data': 4, 'error_data': 8}[fld]     # EPOLLIN / EPOLLOUT / EPOLLERR
-            ker = any(re.match(r'^G:\(.+\.events & (\d+)\)=T$', k) and (int(re.match(r'^G:\(.+\.events & (\d+)\)=T$', k).group(1)) & kbit) for k in st)
+            # the kernel bits that must wake this direction: its own readiness bit, and - for readers and writers alike - an error
+            # (EPOLLERR = 8) or a hang-up (EPOLLHUP = 16): a peer that shuts down while our send queue is full reports EPOLLHUP only
+            need = {'reader_data': 1 | 8 | 16, 'writer_data': 4 | 8 | 16, 'error_data': 8}[fld]
+            ker = any(re.match(r'^G:\(.+\.events & (\d+)\)=T$', k) and (int(re.match(r'^G:\(.+\.events & (\d+)\)=T$', k).group(1)) & need) == need for k in st)
             return reg and ker
         K.check_at(R, P + '.K6', G, res, lambda ev, cb=cb: ev.kind == 'call' and ev.e.get('op') == '()' and ev.recv_path() == cb, fired_ok,
                    key_fn=lambda ev, n=n: '%s.K6:EventEngineEPoll::wait_for_events#%d:fire-%s-only-if-reported-and-registered' % (P, n, (ev.arg_show(0) or '?').split('.')[-1]),
-                   describe=lambda ev: 'waiter %s is fired only if the kernel reported that direction and it is still registered' % ev.arg_show(0), min_sites=3, what='datacb')
+                   describe=lambda ev: 'waiter %s is fired only if it is still registered and the kernel reported its direction, tested with a mask that also covers EPOLLERR/EPOLLHUP (a hang-up wakes readers and writers)' % ev.arg_show(0), min_sites=3, what='datacb')
         K.check_at(R, P + '.K6', G, res, lambda ev: ev.kind == 'call' and ev.callee() == E + '::rm_interest',
                    require=lambda st, ev, f=f: any(re.match(r'^G:\(.+\.interests & 32768\)=T$', k) for k in st) and
                    any(('G:%s=T' % n) in st and re.search(r'(?<![\w.>])%s(?!\w)' % re.escape(n), ev.arg_show(0) or '') for n in K.locals_defined_only_by(f, r'^(0|<compound>)$')),
